@@ -47,6 +47,7 @@ type Explorer struct {
 	solverTimeout int
 	optShuffle    bool
 	tier          int
+	noMerge       bool
 
 	mu        sync.Mutex
 	cond      *sync.Cond
@@ -65,6 +66,7 @@ type Result struct {
 	PathsDone    int               `json:"paths_completed"`
 	Infeasible   int               `json:"paths_infeasible"`
 	Branches     int               `json:"symbolic_branches"`
+	Merges       int               `json:"if_conversions"`
 	Steps        int64             `json:"ssa_steps"`
 	Obligations  int               `json:"obligations"`
 	OblSolver    int               `json:"obligations_solver"`
@@ -293,6 +295,7 @@ func (ex *Explorer) runPath(w *worker, it workItem) {
 		r.PathsDone++
 	}
 	r.Branches += p.branches
+	r.Merges += p.merges
 	r.Steps += p.steps
 	r.Obligations += p.oblTotal
 	r.OblSolver += p.oblSolver
